@@ -63,11 +63,19 @@ def nd_cases(rng, tier):
                         shape = [n if i == pd_ax else rng.randint(1, 3) for i, n in enumerate(shape)]
                     dxs = [rng.choice([1.0, 0.5, 2.0, 0.25]) for _ in range(ndim)]
                     c = float(rng.choice([0, 0, 0, 1, -2])) if p == 'constant' else 0.0
+                    # a pad constant handed over together with a non-constant mode must be ignored
+                    # (operator linear, adjoint available, values unchanged)
+                    if p != 'constant' and rng.random() < 0.3:
+                        c = float(rng.choice([1, -2, 3]))
+                    # constant weightings other than the cell volume: still "uniformly weighted", the
+                    # returned adjoint must stay the exact transpose
+                    wt = rng.choice([None, None, 2.0, 0.5])
+                    kw = {} if wt is None else {'weighting': wt}
                     # grid placement: nodes in the cell centres, or on the boundary per axis/side -- the
                     # operators must take their step from space.cell_sides (= grid stride) in every case
                     bdry = rng.choice([None, None, True, 'mixed'])
                     if bdry is None:
-                        space = odl.uniform_discr([0.0] * ndim, [n * d for n, d in zip(shape, dxs)], shape)
+                        space = odl.uniform_discr([0.0] * ndim, [n * d for n, d in zip(shape, dxs)], shape, **kw)
                     else:
                         flags = ([(True, True)] * ndim if bdry is True else
                                  [(rng.random() < 0.5, rng.random() < 0.5) for _ in range(ndim)])
@@ -76,12 +84,14 @@ def nd_cases(rng, tier):
                         flags = [(False, False) if n == 1 else fl for n, fl in zip(shape, flags)]
                         # extent chosen so that the cell side is exactly dxs[i]: side * (n - (bl + br) / 2)
                         ext = [d * (n - (int(fl[0]) + int(fl[1])) / 2.0) for n, d, fl in zip(shape, dxs, flags)]
-                        space = odl.uniform_discr([0.0] * ndim, ext, shape, nodes_on_bdry=flags)
+                        space = odl.uniform_discr([0.0] * ndim, ext, shape, nodes_on_bdry=flags, **kw)
                         assert np.allclose(space.cell_sides, dxs)
                     meta = {'op': kind, 'shape': shape, 'method': m, 'pad_mode': p, 'pad_const': c,
-                            'dx': dxs, 'axis': pd_ax, 'in_place': False}
+                            'dx': dxs, 'axis': pd_ax, 'in_place': False, 'weighting': wt}
                     try:
                         op = _nd_op(space, meta)
+                        if op.is_linear:
+                            op.adjoint          # must exist for every operator flagged linear
                     except Exception as e:
                         # every axis that is differentiated is long enough for the mode: the code must accept
                         _CTOR_FAILS.append((dict(meta, flags=None if bdry is None else flags), repr(e)))
@@ -145,12 +155,21 @@ def nd_oracle(meta, seed=0):
     rng = random.Random('nd-%r-%d' % (sorted(meta.items(), key=str), seed))
     shape, dxs = meta['shape'], meta['dx']
     ndim = len(shape)
-    space = odl.uniform_discr([0.0] * ndim, [n * d for n, d in zip(shape, dxs)], shape)
+    kw = {} if meta.get('weighting') is None else {'weighting': meta['weighting']}
+    space = odl.uniform_discr([0.0] * ndim, [n * d for n, d in zip(shape, dxs)], shape, **kw)
     try:
         op = _nd_op(space, meta)
+        if op.is_linear:
+            op.adjoint
     except Exception as e:
-        return False, repr(e), 'an operator', 'constructor refuses shape %s although every differentiated axis is long enough' % shape
+        return False, repr(e), 'an operator with an adjoint', ('constructor / adjoint refuses a legal configuration '
+                                                               '(shape %s, pad_mode %r, pad_const %r)' % (shape, meta['pad_mode'], meta['pad_const']))
     kind, m, p, c = meta['op'], meta['method'], meta['pad_mode'], meta['pad_const']
+    want_lin = not (p == 'constant' and c != 0)
+    if bool(op.is_linear) != want_lin:
+        return False, bool(op.is_linear), want_lin, 'is_linear flag (affine only for constant padding with a nonzero constant)'
+    if p != 'constant':
+        c = 0.0          # a pad constant given with another mode is ignored
 
     def rand_el(sp):
         if isinstance(sp, odl.ProductSpace):
@@ -200,6 +219,13 @@ def nd_oracle(meta, seed=0):
         M, A = _matrix(op), _matrix(op.adjoint)
         if not np.array_equal(A, M.T):
             return False, A.tolist(), M.T.tolist(), 'matrix of the returned adjoint is not the transpose'
+    # derivative: the operator itself when linear, the zero-padding version when affine
+    h = rand_el(op.domain)
+    d = op.derivative(x)
+    dq = _flat(op(x + h)) - oop
+    got = _flat(d(h))
+    if not d.is_linear or not np.array_equal(got, dq):
+        return False, got.tolist(), dq.tolist(), 'derivative(x)(h) is not the exact difference quotient op(x+h)-op(x)'
     return True, None, None, ''
 
 
@@ -430,9 +456,9 @@ def probes(rng, tier):
                     if kind == 'pd':
                         shape = [n_ if i == ax else rng.randint(1, 3) for i, n_ in enumerate(shape)]
                     meta = {'op': kind, 'shape': shape, 'method': m, 'pad_mode': p,
-                            'pad_const': float(rng.choice([0, 1, -2])) if p == 'constant' else 0.0,
+                            'pad_const': float(rng.choice([0, 1, -2])) if (p == 'constant' or rng.random() < 0.3) else 0.0,
                             'dx': [rng.choice([1.0, 0.5, 2.0]) for _ in range(ndim)], 'axis': ax,
-                            'in_place': True}
+                            'in_place': True, 'weighting': rng.choice([None, 2.0, 0.5])}
                     out.append(_nd_probe(meta, 'nd-%s-%s-%s' % (kind, m, p)))
     # the set of pad modes Laplacian accepts is the set the self-adjointness theorem covers (lap_mode)
     sp2 = odl.uniform_discr([0, 0], [3, 3], [3, 3])
